@@ -274,6 +274,10 @@ func (e *strEnv) val(t Term) (sval, bool) {
 			if isS(0) && isS(1) {
 				return I(strings.Count(args[0].S, args[1].S)), true
 			}
+		case "strings.Repeat":
+			if isS(0) && isI(1) && args[1].I >= 0 && args[1].I <= 64 {
+				return sval{K: 's', S: strings.Repeat(args[0].S, int(args[1].I))}, true
+			}
 		case "strings.TrimPrefix":
 			if isS(0) && isS(1) {
 				return sval{K: 's', S: strings.TrimPrefix(args[0].S, args[1].S)}, true
